@@ -78,7 +78,7 @@ func ZZ_C07_VerifyRebuild() {
 		}
 		zzAssert(wo.Mode == "RW", "C07.promoted-but-replica-not-told-RW")
 		isReader := false
-		for _, a := range c.backend.readerIndex {
+		for _, a := range zzReaderAddrs(c) {
 			if a == addr {
 				isReader = true
 			}
@@ -88,7 +88,7 @@ func ZZ_C07_VerifyRebuild() {
 	if preMode == types.WO && err != nil {
 		zzReach("C07.refused")
 		zzAssert(!e.attached(addr) || e.modeOf(addr) == types.WO || e.modeOf(addr) == types.ERR, "C07.verify-failed-but-mode-changed")
-		for _, a := range c.backend.readerIndex {
+		for _, a := range zzReaderAddrs(c) {
 			zzAssert(a != addr, "C07.unverified-replica-became-reader")
 		}
 	}
